@@ -215,6 +215,8 @@ class Ev:
         k, n = self.kind, len(self.inner) + 1
         if k.startswith('other:'):
             return []
+        if k == 'iter-held':
+            return ['C'] + self.inner + ['C', 'C']
         if not self.inner and not self.raises:
             return ['C'] * FLAT_CMPS[k]
         if k == 'index-of':
@@ -398,11 +400,40 @@ def root():
     return ROOT
 
 
+def eval_iter_held(ev: Ev, eval_inner):
+    """`Selector(index-of($s, $a, $c)).iter_select(..)` advanced to its first result — the fn:index-of
+    generator is now suspended inside its `with CollationManager(..)` block — then the inner evaluations
+    run (each a complete public-API call of its own), then the iterator is exhausted.  Returns the list of
+    results; an exception of the outer call propagates, the inner ones were generated not to raise."""
+    from elementpath import Selector
+    from elementpath.xpath31 import XPath31Parser
+    sel = Selector('index-of($s, $a, $c)' if ev.coll is not None else 'index-of($s, $a, ())', parser=XPath31Parser)
+    variables = {'s': ['a', 'x', 'a'], 'a': 'a'}
+    if ev.coll is not None:
+        variables['c'] = ev.coll
+    it = sel.iter_select(root(), variables=variables)
+    out = [next(it)]
+    for e in ev.inner:
+        eval_inner(e)
+    out += list(it)
+    return out
+
+
 def run_tree(ev: Ev):
     """evaluate one tree with the real library; returns canonical outcome text"""
     from elementpath import select
     from elementpath.xpath31 import XPath31Parser
     b = ExprBuilder()
+    if ev.kind == 'iter-held':
+        def inner(e):
+            bb = ExprBuilder()
+            select(root(), bb.expr(e), parser=XPath31Parser, variables=bb.vars)
+        kind, val = watchdog(lambda: eval_iter_held(ev, inner))
+        expr = 'iter_select(index-of($s, $a, $c)) suspended after its first result around: ' + \
+            ' ; '.join(ExprBuilder().expr(e) for e in ev.inner)
+        if kind == 'HANG':
+            return 'HANG' if val == 'acquire' else f'HANG:{val}', expr
+        return ('ok' if kind == 'ok' else canon_exc(val)), expr
     expr = b.expr(ev)
 
     dcs = {e.coll for e in walk_evs(ev) if e.dflt}
@@ -577,9 +608,26 @@ def gen_coll(rng, world: World):
                        'http://www.w3.org/2013/collation/UC', CODEPOINT + '/', 'a b c'])
 
 
+def safe_coll(rng, world: World):
+    """a collation whose evaluation cannot raise in this world"""
+    inst = [a for a in world.avail if '.' in a and '@' not in a and a.split('.')[1] == 'UTF-8']
+    if inst and rng.random() < 0.8:
+        a = rng.choice(inst)
+        return rng.choice([a, UCA + '?lang=' + a])
+    return rng.choice([CODEPOINT, HTML_ASCII])
+
+
+def gen_iter_held(rng, world: World, coll) -> Ev:
+    inner = [Ev(safe_coll(rng, world), kind=rng.choice(['compare', 'contains', 'index-of', 'collation-key']))
+             for _ in range(rng.randint(1, 3))]
+    return Ev(coll, inner, False, 'iter-held')
+
+
 def gen_ev(rng, world: World, depth=0, allow_nest=True) -> Ev:
     if depth == 0 and rng.random() < 0.08:
         return Ev(CODEPOINT, kind=f'other:{rng.randrange(len(OTHER_EXPRS))}')
+    if depth == 0 and allow_nest and rng.random() < 0.07:
+        return gen_iter_held(rng, world, gen_coll(rng, world))
     coll = gen_coll(rng, world)
     nest = allow_nest and depth < 2 and rng.random() < (0.22 if depth == 0 else 0.3)
     raises = rng.random() < 0.2
@@ -836,7 +884,7 @@ def correspond_histories(run: Run):
 
 # ---------------------------------------------------------------------------------- threads
 def gen_thread_case(rng):
-    nthreads = rng.randint(2, 8)
+    nthreads = 8 if rng.random() < 0.35 else rng.randint(2, 8)
     pool = rng.sample(LOCALES, rng.randint(2, len(LOCALES)))
     avail = [x for x in pool if rng.random() < 0.8]
     world = World(rng.choice(['C', 'C', 'en_US.UTF-8', 'POSIX']), avail)
@@ -855,6 +903,8 @@ def gen_thread_case(rng):
         r = rng.random()
         if depth == 0 and r < 0.15:
             return Ev(CODEPOINT, kind=f'other:{rng.randrange(len(OTHER_EXPRS))}')
+        if depth == 0 and r < 0.33:       # a generator left suspended inside its scope while other calls run
+            return gen_iter_held(rng, world, coll())
         raises = rng.random() < 0.12
         if depth < 2 and r < 0.45:      # nested / generator-held scopes
             kind = rng.choice(NEST_KINDS)
@@ -918,6 +968,12 @@ def run_threads_impl(world, progs, concurrent: bool, rng):
             for j in progs[i]:
                 b = ExprBuilder()
                 try:
+                    if j.kind == 'iter-held':
+                        def inner(e):
+                            bb = ExprBuilder()
+                            Selector(bb.expr(e), parser=XPath31Parser).select(root(), variables=bb.vars)
+                        outs.append('ok:' + repr(eval_iter_held(j, inner)))
+                        continue
                     # an independent Selector (own parser instance) per evaluation, built in the thread
                     expr = b.expr(j)
                     sel = Selector(expr, parser=XPath31Parser)
@@ -1338,6 +1394,8 @@ SEED_TEXTS = [
     ('<!DOCTYPE r [<!ENTITY e "EXPANDED"]><r>&e;</r>', True, None),
     ('<!doctype r [<!ENTITY e "EXPANDED">]><r>&e;</r>', True, None),
     ('<r>&lt;&#65;</r>', True, False),
+    # declarations after a parameter-entity reference are not processed (XML 1.0 5.1): &e; is undefined
+    ('<!DOCTYPE r [<!ENTITY % p "<!-- x -->">%p;<!ENTITY e "EXPANDED">]><r>&e;</r>', True, True),
     ('<!-- ' + 'x' * 17000 + ' --><!DOCTYPE r [<!ENTITY e "EXPANDED">]><r>&e;</r>', True, True),
     ('<!DOCTYPE r [<!-- ' + 'x' * 17000 + ' --><!ENTITY e "EXPANDED">]><r>&e;</r>', True, True),
 ]
@@ -1655,6 +1713,19 @@ def scan_sources(pkg_root: Path) -> dict:
         writers = {}
         for n in ast.walk(tree):
             where = qn.get(n, '<module>')
+            if isinstance(n, (ast.FunctionDef, ast.AsyncFunctionDef)):
+                me = n.name if where == '<module>' else where + '.' + n.name
+                if any(ast.unparse(d).split('(')[0].split('.')[-1] in ('lru_cache', 'cache')
+                       for d in n.decorator_list):       # process-wide memo (cached_property is per instance)
+                    writers.setdefault(n.name, set()).add('<memo decorator>')
+                for i, dv in enumerate(list(n.args.defaults) + [d for d in n.args.kw_defaults if d is not None]):
+                    if mut_kind(dv):
+                        writers.setdefault(f'{me}(default#{i})', set()).add(me)
+            if isinstance(n, ast.Assign) and where != '<module>':
+                for t in n.targets:      # f.attr = {} / cls.attr = {} : a container hung on a function or class
+                    if isinstance(t, ast.Attribute) and isinstance(t.value, ast.Name) and \
+                            t.value.id not in ('self',) and mut_kind(n.value) and t.value.id in ('cls',):
+                        writers.setdefault('*.' + t.attr, set()).add(where)
             if isinstance(n, ast.Global):
                 for nm in n.names:
                     glob.setdefault(nm, 'rebound')
@@ -1846,7 +1917,20 @@ def _fingerprint_globals(mods):
 
     def dunder(n):
         return n.startswith('__') and n.endswith('__')
+    import types
     out = {}
+
+    def func_state(modname, qual, f):
+        """mutable default arguments and function attributes: `def f(x, _memo={})`, `f.cache = {}`"""
+        f = getattr(f, '__func__', f)
+        if not isinstance(f, types.FunctionType):
+            return
+        for i, dv in enumerate(list(f.__defaults__ or ()) + list((f.__kwdefaults__ or {}).values())):
+            if isinstance(dv, mut):
+                out[(modname, f'{qual}(default#{i})')] = fp(dv)
+        for a, av in list(vars(f).items()):
+            if isinstance(av, mut) and not dunder(a):
+                out[(modname, f'{qual}.{a}')] = fp(av)
     for m in mods:
         for n, v in list(vars(m).items()):
             if dunder(n):
@@ -1854,12 +1938,21 @@ def _fingerprint_globals(mods):
             if isinstance(v, mut) or (callable(v) and hasattr(v, 'cache_info') and
                                       getattr(v, '__module__', None) == m.__name__):
                 out[(m.__name__, n)] = fp(v)
+            if isinstance(v, types.FunctionType) and v.__module__ == m.__name__:
+                func_state(m.__name__, n, v)
             if isinstance(v, type) and v.__module__ == m.__name__:
                 for a, av in list(vars(v).items()):
-                    if dunder(a):
+                    if dunder(a) and a not in ('__init__', '__new__', '__call__'):
                         continue
                     if isinstance(av, mut) or (callable(av) and hasattr(av, 'cache_info')):
                         out[(m.__name__, v.__name__ + '.' + a)] = fp(av)
+                    func_state(m.__name__, v.__name__ + '.' + a, av)
+            elif not isinstance(v, (type, types.ModuleType, types.FunctionType)) and \
+                    type(v).__module__.startswith('elementpath') and hasattr(v, '__dict__'):
+                # a module-level instance of one of the package's classes: its container attributes
+                for a, av in list(vars(v).items()):
+                    if isinstance(av, mut):
+                        out[(m.__name__, f'{n}.{a}')] = fp(av)
     return out
 
 
@@ -1890,6 +1983,26 @@ def dynamic_globals() -> dict:
         import re as _re
         return _re.sub(r' at 0x[0-9a-f]+', '', r)
 
+    import xml.etree.ElementTree as _ET
+    from elementpath import Selector, XPathContext
+    nsdoc = _ET.XML('<a xmlns:u1="urn:one" xmlns:u2="urn:two"><u1:b>one</u1:b><u2:b>two</u2:b></a>')
+    # the same expression under different options: anything cached across calls must be keyed by them
+    CONFIGS = [
+        ('plain', {}, {}),
+        ('xsd11', {'xsd_version': '1.1'}, {}),
+        ('ns1', {'namespaces': {'p': 'urn:one'}}, {}),
+        ('ns2', {'namespaces': {'p': 'urn:two'}}, {}),
+        ('tz', {}, {'timezone': '+05:00'}),
+    ]
+    CONFIG_EXPRS = [
+        "matches('ab', '^\\p{L}+$')", "matches('a', 'a', 'i')", "replace('aXb', 'x', '-', 'i')", "tokenize('a,b', ',')",
+        "xs:date('0000-01-01') lt xs:date('0001-01-01')", "string(//p:b)", "count(//p:b)",
+        "xs:dateTime('2000-01-01T12:00:00+02:00') - xs:dateTime('2000-01-01T12:00:00')",
+        "xs:time('10:00:00-08:00') eq xs:time('18:00:00Z')", "adjust-time-to-timezone(xs:time('10:00:00Z'))",
+        "implicit-timezone()", "xs:dateTimeStamp('2000-01-01T00:00:00Z') instance of xs:dateTime",
+        "format-dateTime(xs:dateTime('2000-01-01T12:00:00+01:00'), '[H]:[m] [z]')",
+    ]
+
     def run_battery(order):
         res = {}
         for P in parsers:
@@ -1900,6 +2013,24 @@ def dynamic_globals() -> dict:
                     res[(P.__name__, e)] = canon(select(root(), e, parser=P))
                 except BaseException as ex:
                     res[(P.__name__, e)] = canon_exc(ex)
+        rev = order is not BATTERY
+        for name, pkw, ckw in (CONFIGS[::-1] if rev else CONFIGS):
+            for P in (XPath2Parser, XPath31Parser):
+                for e in (CONFIG_EXPRS[::-1] if rev else CONFIG_EXPRS):
+                    pk = dict(pkw)
+                    ns = pk.pop('namespaces', None)
+                    for api in ('select', 'selector', 'evaluate'):
+                        try:
+                            if api == 'select':
+                                v = select(nsdoc, e, namespaces=ns, parser=P, **pk, **ckw)
+                            elif api == 'selector':
+                                sel = Selector(e, namespaces=ns, parser=P, **pk)
+                                v = [sel.select(nsdoc, **ckw), list(sel.iter_select(nsdoc, **ckw))]   # same object twice
+                            else:
+                                v = P(namespaces=ns, **pk).parse(e).evaluate(XPathContext(nsdoc, **ckw))
+                            res[(P.__name__, name, api, e)] = canon(v)
+                        except BaseException as ex:
+                            res[(P.__name__, name, api, e)] = canon_exc(ex)
         return res
     s0 = _fingerprint_globals(mods)
     r1 = run_battery(BATTERY)
@@ -1911,7 +2042,7 @@ def dynamic_globals() -> dict:
     second = sorted(k for k in set(s1) | set(s2) if s1.get(k) != s2.get(k))
     differ = sorted(f'{k[0]}: {k[1]}' for k in r1 if r1[k] != r2.get(k) or r1[k] != r3.get(k))
     return {'count': len(s0), 'written_first_run': first, 'written_second_run': second, 'results_differ': differ,
-            'battery': len(BATTERY) * len(parsers)}
+            'battery': len(r1)}
 
 
 def _lean_str(x: str) -> str:
